@@ -141,21 +141,29 @@ fn new_request(rng: &mut Rng, k: u64, srv: Option<&[u8]>) -> Vec<u8> {
     let p = if k % 2 == 0 { Proto::Google } else { Proto::Ietf };
     let nonce = rng.bytes(if p == Proto::Google { 64 } else { 32 });
     let size = 1024 + 4 * rng.below(100) as usize;
-    proto::build_request(p, &nonce, size, &[proto::VER_DRAFT13], if k % 3 == 0 { srv } else { None })
+    proto::build_request(p, &nonce, size, &[proto::VER_DRAFT13], if p == Proto::Ietf { srv } else { None })
 }
 
 /// one burst: every socket sends `per_sock` requests, then all replies are collected
 pub fn probe(port: u16, n_socks: usize, per_sock: usize, rng: &mut Rng, srv: &[u8], wait_ms: u64) -> Vec<Exchange> {
+    probe_skewed(port, n_socks, per_sock, rng, srv, wait_ms, "mix", &mut || {})
+}
+
+/// as `probe`; `skew` = "G" / "I": every request of the burst is of that protocol (a batch filled by one protocol);
+/// `released` runs after everything was sent and before replies are collected (e.g. SIGCONT of a stalled server)
+pub fn probe_skewed(port: u16, n_socks: usize, per_sock: usize, rng: &mut Rng, srv: &[u8], wait_ms: u64, skew: &str, released: &mut dyn FnMut()) -> Vec<Exchange> {
     let socks: Vec<UdpSocket> = (0..n_socks).map(|_| { let s = UdpSocket::bind("127.0.0.1:0").unwrap(); s.set_nonblocking(true).unwrap(); s }).collect();
     let mut ex = vec![];
     for j in 0..per_sock {
         for (i, s) in socks.iter().enumerate() {
-            let rq = new_request(rng, (i + j) as u64, Some(srv));
+            let k = match skew { "G" => 2 * (i + j) as u64, "I" => 2 * (i + j) as u64 + 1, _ => (i + j) as u64 };
+            let rq = new_request(rng, k, if (i + j) % 3 == 0 { Some(srv) } else { None });
             let t = now_ns();
             let _ = s.send_to(&rq, ("127.0.0.1", port));
             ex.push(Exchange { sock: i, request: rq, replies: vec![], t_before: t, t_after: 0 });
         }
     }
+    released();
     let deadline = Instant::now() + Duration::from_millis(wait_ms);
     let mut buf = vec![0u8; 4096];
     let want: usize = ex.len();
@@ -325,6 +333,17 @@ pub fn run_scenarios(path: &str, out_prefix: &str, server_bin: &str, workdir: &s
             for _ in 0..sc["probe_rounds"].as_u64().unwrap_or(3) {
                 let ex = probe(sp.port, sc["probe_socks"].as_u64().unwrap_or(48) as usize, 1, &mut rng, &srv, 1200);
                 st.round(&ex, ltk_pub, &srv, &secrets, fault);
+            }
+            // stalled bursts: the process is stopped (SIGSTOP) while a whole burst queues up, then continued: the workers find
+            // full batches waiting - of one protocol ("G", "I") or mixed - instead of draining as fast as the harness sends
+            if let Some(list) = sc["stalled_bursts"].as_array() {
+                for b in list {
+                    let (n, skew) = (b[0].as_u64().unwrap_or(64) as usize, b[1].as_str().unwrap_or("mix").to_string());
+                    unsafe { libc::kill(sp.pid() as i32, libc::SIGSTOP); }
+                    let pid = sp.pid() as i32;
+                    let ex = probe_skewed(sp.port, n, 1, &mut rng, &srv, 2500, &skew, &mut || { std::thread::sleep(Duration::from_millis(30)); unsafe { libc::kill(pid, libc::SIGCONT); } });
+                    st.round(&ex, ltk_pub, &srv, &secrets, fault);
+                }
             }
             writeln!(proc_out, "{}", json!({"ev": "served", "distinct_online_keys": st.keys_seen, "replies": st.replies})).unwrap();
         }
